@@ -12,7 +12,8 @@ EditU == << <<"clearName">>, <<"setName", <<78,50>>>>, <<"setNs", <<104,47,110,1
             <<"setSub", <<46,46,47,120>>>>, <<"insQ", <<101>>, <<>>>>, <<"insQ", <<90>>, <<49>>>>,
             <<"insQ", CHECKSUM, <<66,58,48,48,44,97,58,70,70>>>>, <<"insQ", CHECKSUM, <<122,122>>>>,
             <<"insQ", CHECKSUM, <<>>>>, <<"remQ", <<107>>>>, <<"insQ", <<33>>, <<120>>>>,
-            <<"insQ", CHECKSUM, <<97,58,48,44,98,58,49>>>> >>                  \* "a:0,b:1": two odd-length hashes
+            <<"insQ", CHECKSUM, <<97,58,48,44,98,58,49>>>>,                    \* "a:0,b:1": two odd-length hashes
+            <<"remQ", CHECKSUM>> >>                                            \* the hook takes the checksum away
 RECURSIVE Subseqs(_, _)          \* index-increasing subsequences of 1..n with at most e elements
 Subseqs(from, e) == IF e = 0 \/ from > Len(EditU) THEN {<<>>}
                     ELSE Subseqs(from + 1, e) \cup {<<EditU[from]>> \o x : x \in Subseqs(from + 1, e - 1)}
@@ -28,11 +29,14 @@ ParseInputs == { PKG \o <<84,121,47,110,115,47,110,64,49,63,107,61,118,35,115>>,
                  PKG \o <<233,47,110>>,                                                   \* pkg:e-acute/n (non-ASCII type)
                  \* a defect after a well-formed type (the conversion may or may not have been tried), and two defects at once
                  PKG \o <<116,47,110,63,101,61,38,107,61,118>>,                           \* pkg:t/n?e=&k=v (an empty-valued qualifier)
+                 PKG \o <<116,47,110,63,99,104,101,99,107,115,117,109,61,122,122>>,       \* pkg:t/n?checksum=zz (malformed as written: the hook may repair or remove it)
                  PKG \o <<116,47,110,63,107>>,                                            \* pkg:t/n?k      (qualifier without '=')
                  PKG \o <<116,47,110,35,37,56,48>>,                                       \* pkg:t/n#%80    (bad escape in the subpath)
                  PKG \o <<116,63,107,61,118>>,                                            \* pkg:t?k=v      (no name, type well-formed)
                  PKG \o <<116,33,47,110,63,107>>,                                         \* pkg:t!/n?k     (invalid type and bad qualifier)
                  PKG \o <<116,47,37,56,48,63,107,61,49,38,75,61,50>> }                    \* pkg:t/%80?k=1&K=2 (bad escape and repeated key)
+\* GenericPurl::new(type, name) is builder(type, name).build()
+NewInputs == { [st |-> <<84,121>>, name |-> <<110>>], [st |-> <<116>>, name |-> <<>>] }
 BuildInputs == { [st |-> <<84,121>>, parts |-> [NoParts EXCEPT !.name = <<110>>, !.quals = << <<<<107>>, <<118>>>> >>]],
                  [st |-> <<116>>, parts |-> NoParts],
                  [st |-> <<33>>, parts |-> [NoParts EXCEPT !.name = <<110>>]] }              \* type "!": Display must panic
@@ -46,6 +50,8 @@ Begin == /\ pc = "idle"
          /\ \/ \E s \in ParseInputs, shp \in Shapes : MBeginParse(s, shp) /\ input' = [entry |-> "parse", s |-> s]
             \/ \E s \in BuiltinInputs, shp \in {Generic, Typed} : MBeginParse(s, shp) /\ input' = [entry |-> "parse", s |-> s]
             \/ \E b \in BuildInputs, shp \in Shapes : MBeginBuild(b.st, b.parts, shp) /\ input' = [entry |-> "build", st |-> b.st, parts |-> b.parts]
+            \/ \E b \in NewInputs, shp \in Shapes : LET p0 == [NoParts EXCEPT !.name = b.name] IN
+                                                      MBeginBuild(b.st, p0, shp) /\ input' = [entry |-> "new", st |-> b.st, parts |-> p0]
 \* every behaviour of the machine: the callbacks in any admitted order, every admitted outcome
 Conv == MConv(info.type) /\ UNCHANGED input
 Finish == LET r == StepFinish(shape, st, parts, LowerTab) IN
@@ -60,7 +66,7 @@ Allowed == IF input.entry = "parse" THEN AllowedParse(input.s, shape) ELSE Allow
 \* what the library does today, in the order it does it (PurlParse!ParseF, PurlBuild!BuildF)
 LibOut == IF input.entry = "parse" THEN ParseF(input.s, shape, LowerTab) ELSE BuildF(shape, input.st, input.parts, LowerTab)
 LibConv == IF input.entry = "parse" /\ ParseFront(input.s).ok THEN 1 ELSE 0
-LibFin == IF input.entry = "build" THEN 1
+LibFin == IF input.entry # "parse" THEN 1
           ELSE LET f == ParseFront(input.s) IN
                IF f.ok /\ ShapeConv(shape, f.type).ok /\ ParseBack(f).ok THEN 1 ELSE 0
 \* the order-free analysis of the string agrees with the transcribed parser
